@@ -566,3 +566,188 @@ Proof.
   - rewrite <- !app_assoc. now rewrite app_nth1 by lia.
   - rewrite <- !app_assoc. now rewrite app_nth1 by lia.
 Qed.
+
+(** ** op ids: consecutive values of the counter, one per context, never disturbed by
+    operations that respect the reserved name *)
+Definition reserved_free (o : op) : Prop :=
+  match o with
+  | OAdd _ MReq k _ => k <> opid_header
+  | _ => True
+  end.
+
+Definition ids_inv (start : Z) (s : st) : Prop :=
+  next_op s = (start + Z.of_nat (length (ctxs s))) mod two64
+  /\ forall k c, nth_error (ctxs s) k = Some c ->
+       lookup opid_header (req_of s c) = Some (format_uint ((start + Z.of_nat k + 1) mod two64)).
+
+Lemma req_addr_bound s k c : good s -> nth_error (ctxs s) k = Some c -> (c_req c < length (heap s))%nat.
+Proof. intros G H. destruct (g_sep s G) as [Hb _]. apply (Hb (SReq k)). cbn. now rewrite H. Qed.
+
+Lemma req_unchanged s o s' k c :
+  good s -> step s o = Some s' -> nth_error (ctxs s) k = Some c ->
+  target s o <> Some (c_req c) -> req_of s' c = req_of s c.
+Proof.
+  intros G H Hk Ht. destruct (step_frame s o s' H) as (_ & Hfr & _).
+  unfold req_of. apply Hfr; [eapply req_addr_bound; eassumption | exact Ht].
+Qed.
+
+Lemma lookup_opid_after_assign m k v :
+  NoDup (keys m) -> k <> opid_header -> lookup opid_header (assign m k v) = lookup opid_header m.
+Proof.
+  intros ND Hk. rewrite lookup_assign by exact ND.
+  destruct (bytes_eqb opid_header k) eqn:E; [|reflexivity].
+  apply bytes_eqb_eq in E. congruence.
+Qed.
+
+Lemma mod_succ start n : ((start + n) mod two64 + 1) mod two64 = (start + n + 1) mod two64.
+Proof. unfold two64. rewrite Zplus_mod_idemp_l. reflexivity. Qed.
+
+Lemma nth_error_snoc_inv {A} (l : list A) x k y :
+  nth_error (l ++ [x]) k = Some y -> (nth_error l k = Some y /\ (k < length l)%nat) \/ (k = length l /\ y = x).
+Proof.
+  intros H. destruct (nth_error_snoc l x k y H) as [H1|H1]; [left|right; exact H1].
+  split; [exact H1|]. apply nth_error_Some. congruence.
+Qed.
+
+Lemma step_ids start s o s' :
+  good s -> ids_inv start s -> reserved_free o -> step s o = Some s' -> ids_inv start s'.
+Proof.
+  intros G [Hn Hids] Hrf H.
+  pose proof (step_frame s o s' H) as (Hlen & Hfr & _).
+  pose proof G as [[Hb Hinj] Hkeys _].
+  (* old contexts keep their op id when the step does not write _opid into their request map *)
+  assert (Old : forall k c, nth_error (ctxs s) k = Some c ->
+            (target s o <> Some (c_req c) \/
+             exists key v, req_of s' c = assign (req_of s c) key v /\ key <> opid_header) ->
+            lookup opid_header (req_of s' c) = Some (format_uint ((start + Z.of_nat k + 1) mod two64))).
+  { intros k c Hk [Ht|(key & v & E & Hne)].
+    - rewrite (req_unchanged s o s' k c G H Hk Ht). now apply Hids.
+    - rewrite E, lookup_opid_after_assign; [now apply Hids | apply keys_ok_get; exact Hkeys | exact Hne]. }
+  destruct o as [cid|i m key v|i ns|i m|u key v|i| |p hdrs|i hdrs]; cbn [step] in H.
+  - (* ONew *)
+    injection H as <-. split.
+    + cbn. rewrite app_length. cbn. rewrite Hn, Nat2Z.inj_add. cbn. rewrite mod_succ. f_equal. lia.
+    + intros k c Hk. cbn [ctxs add_ctx alloc bump fst snd] in Hk. cbn in Hk.
+      apply nth_error_snoc_inv in Hk. destruct Hk as [[Hk Hlt]|[-> ->]].
+      * unfold req_of, get. cbn. rewrite <- !app_assoc.
+        rewrite app_nth1 by (eapply req_addr_bound; eassumption).
+        now apply Hids.
+      * unfold req_of, get. cbn -[format_uint lookup]. rewrite <- !app_assoc.
+        rewrite app_nth2 by lia. rewrite Nat.sub_diag. cbn -[format_uint].
+        rewrite Hn, mod_succ. reflexivity.
+  - (* OAdd *)
+    destruct (ctx_at s i) as [ci|] eqn:Ei; [|discriminate]. injection H as <-.
+    split; [exact Hn|]. intros k c Hk. cbn [ctxs put] in Hk.
+    apply Old; [exact Hk|].
+    destruct (Nat.eq_dec (sel ci m) (c_req c)) as [E|E].
+    + right. exists key, v.
+      assert (Sm : slot_addr s (SReq k) = Some (c_req c)) by (cbn; now rewrite Hk).
+      assert (m = MReq /\ i = k) as [-> ->].
+      { unfold ctx_at in Ei. destruct m; cbn [sel] in E.
+        - assert (S2 : slot_addr s (SReq i) = Some (c_req c)) by (cbn; rewrite Ei; cbn; congruence).
+          pose proof (Hinj _ _ _ S2 Sm) as X. injection X as ->. auto.
+        - assert (S2 : slot_addr s (SResp i) = Some (c_req c)) by (cbn; rewrite Ei; cbn; congruence).
+          pose proof (Hinj _ _ _ S2 Sm) as X. discriminate.
+        - destruct (c_own_eph ci) eqn:Eo.
+          + assert (S2 : slot_addr s (SEph i) = Some (c_req c)) by (cbn; rewrite Ei, Eo; congruence).
+            pose proof (Hinj _ _ _ S2 Sm) as X. discriminate.
+          + destruct (g_shared s G ci (nth_error_In' _ _ _ Ei) Eo) as [p Hp].
+            assert (S2 : slot_addr s (SProto p) = Some (c_req c)) by (cbn; congruence).
+            pose proof (Hinj _ _ _ S2 Sm) as X. discriminate. }
+      unfold ctx_at in Ei. rewrite Hk in Ei. injection Ei as ->. cbn [sel].
+      split; [|exact Hrf]. unfold req_of. rewrite get_put_same; [reflexivity|].
+      eapply req_addr_bound; eassumption.
+    + left. cbn [target]. rewrite Ei. cbn. congruence.
+  - (* OSetTimeout *)
+    destruct (ctx_at s i) as [ci|] eqn:Ei; [|discriminate]. injection H as <-.
+    split; [exact Hn|]. intros k c Hk. cbn [ctxs put] in Hk.
+    apply Old; [exact Hk|].
+    destruct (Nat.eq_dec (c_req ci) (c_req c)) as [E|E].
+    + right. exists timeout_header, (format_int (quot_ms ns)).
+      split; [|discriminate]. unfold req_of. rewrite E, get_put_same; [reflexivity|].
+      eapply req_addr_bound; eassumption.
+    + left. cbn [target]. rewrite Ei. cbn. congruence.
+  - (* OGet *)
+    destruct (ctx_at s i) as [ci|] eqn:Ei; [|discriminate]. injection H as <-.
+    split; [exact Hn|]. intros k c Hk. apply Old; [exact Hk|]. left. cbn. discriminate.
+  - (* OMutUser *)
+    destruct (nth_error (umaps s) u) as [a0|] eqn:Eu; [|discriminate]. injection H as <-.
+    split; [exact Hn|]. intros k c Hk. cbn [ctxs put] in Hk. apply Old; [exact Hk|]. left. cbn [target]. rewrite Eu.
+    intros X. injection X as ->.
+    assert (S1 : slot_addr s (SUser u) = Some (c_req c)) by exact Eu.
+    assert (S2 : slot_addr s (SReq k) = Some (c_req c)) by (cbn; now rewrite Hk).
+    pose proof (Hinj _ _ _ S1 S2). discriminate.
+  - (* OClone *)
+    destruct (ctx_at s i) as [ci|] eqn:Ei; [|discriminate]. injection H as <-. split.
+    + cbn. rewrite app_length. cbn. rewrite Hn, Nat2Z.inj_add. cbn. rewrite mod_succ. f_equal. lia.
+    + intros k c Hk. cbn in Hk. apply nth_error_snoc_inv in Hk. destruct Hk as [[Hk Hlt]|[-> ->]].
+      * unfold req_of, get. cbn -[assign format_uint]. rewrite <- !app_assoc.
+        rewrite app_nth1 by (eapply req_addr_bound; eassumption). now apply Hids.
+      * unfold req_of, get. cbn -[assign format_uint lookup]. rewrite <- !app_assoc.
+        rewrite app_nth2 by lia. rewrite Nat.sub_diag. cbn -[assign format_uint lookup].
+        rewrite lookup_assign by (apply keys_ok_get; exact Hkeys).
+        rewrite bytes_eqb_refl, Hn, mod_succ. reflexivity.
+  - (* ONewProto *)
+    injection H as <-. split; [exact Hn|]. intros k c Hk. apply Old; [exact Hk|]. left. cbn. discriminate.
+  - (* ORecv *)
+    destruct (nth_error (protos s) p) as [pe|] eqn:Ep; [|discriminate].
+    destruct (lookup opid_header (to_map hdrs)) as [opid|]; injection H as <-; [|split; assumption].
+    split.
+    + cbn. rewrite app_length. cbn. rewrite Hn, Nat2Z.inj_add. cbn. rewrite mod_succ. f_equal. lia.
+    + intros k c Hk. cbn in Hk. apply nth_error_snoc_inv in Hk. destruct Hk as [[Hk Hlt]|[-> ->]].
+      * unfold req_of, get. cbn -[assign format_uint without_key to_map lookup_default]. rewrite <- !app_assoc.
+        rewrite app_nth1 by (eapply req_addr_bound; eassumption). now apply Hids.
+      * unfold req_of, get. cbn -[assign format_uint lookup without_key to_map lookup_default].
+        rewrite <- !app_assoc. rewrite app_nth2 by lia. rewrite Nat.sub_diag.
+        cbn -[assign format_uint lookup without_key to_map lookup_default].
+        rewrite lookup_assign by (unfold without_key; apply remove_key_nodup, to_map_nodup).
+        rewrite bytes_eqb_refl, Hn, mod_succ. reflexivity.
+  - (* OReadResp *)
+    destruct (ctx_at s i) as [ci|] eqn:Ei; [|discriminate]. injection H as <-.
+    split; [exact Hn|]. intros k c Hk. cbn [ctxs put] in Hk. apply Old; [exact Hk|].
+    left. cbn [target]. rewrite Ei. cbn. intros X. injection X as E.
+    unfold ctx_at in Ei.
+    assert (S1 : slot_addr s (SResp i) = Some (c_req c)) by (cbn; rewrite Ei; cbn; congruence).
+    assert (S2 : slot_addr s (SReq k) = Some (c_req c)) by (cbn; now rewrite Hk).
+    pose proof (Hinj _ _ _ S1 S2). discriminate.
+Qed.
+
+Fixpoint all_reserved_free (ops : list op) : Prop :=
+  match ops with [] => True | o :: r => reserved_free o /\ all_reserved_free r end.
+
+Lemma ids_init start : 0 <= start < two64 -> ids_inv start (init start).
+Proof.
+  intros H. split.
+  - cbn. rewrite Z.add_0_r. symmetry. apply Z.mod_small. exact H.
+  - intros k c Hk. destruct k; discriminate.
+Qed.
+
+Lemma run_ids start ops : forall s s',
+  good s -> ids_inv start s -> all_reserved_free ops -> run s ops = Some s' -> good s' /\ ids_inv start s'.
+Proof.
+  induction ops as [|o ops IH]; intros s s' G I Hrf H; cbn [run] in H.
+  - injection H as <-. auto.
+  - destruct (step s o) as [s1|] eqn:E; [|discriminate]. destruct Hrf as [Ho Hr].
+    apply (IH s1 s'); auto; [eapply step_good | eapply step_ids]; eassumption.
+Qed.
+
+(** every two contexts ever created, cloned or received carry different op ids *)
+Lemma opids_distinct start ops s k1 k2 c1 c2 :
+  0 <= start < two64 -> all_reserved_free ops -> run (init start) ops = Some s ->
+  Z.of_nat (length (ctxs s)) <= two64 ->
+  nth_error (ctxs s) k1 = Some c1 -> nth_error (ctxs s) k2 = Some c2 -> k1 <> k2 ->
+  opid_of s c1 <> opid_of s c2.
+Proof.
+  intros Hs Hrf Hrun Hlen H1 H2 Hne.
+  destruct (run_ids start ops (init start) s (good_init start) (ids_init start Hs) Hrf Hrun) as [G [_ Hids]].
+  unfold opid_of, lookup_default. rewrite (Hids _ _ H1), (Hids _ _ H2).
+  intros E. apply format_uint_inj in E; try (apply Z.mod_pos_bound; unfold two64; lia).
+  assert (L1 : (k1 < length (ctxs s))%nat) by (apply nth_error_Some; congruence).
+  assert (L2 : (k2 < length (ctxs s))%nat) by (apply nth_error_Some; congruence).
+  unfold two64 in *.
+  assert (D : (Z.of_nat k1 - Z.of_nat k2) mod 18446744073709551616 = 0).
+  { replace (Z.of_nat k1 - Z.of_nat k2) with ((start + Z.of_nat k1 + 1) - (start + Z.of_nat k2 + 1)) by lia.
+    rewrite Zminus_mod, E, Z.sub_diag. reflexivity. }
+  apply Z.mod_divide in D; [|lia]. destruct D as [q Hq].
+  assert (q = 0) by nia. subst q. lia.
+Qed.
